@@ -284,6 +284,30 @@ def run(tier="quick", root="/repo", evidence_dir=None, quiet=False):
     for s_ in ast.walk(init.node):
         if isinstance(s_, ast.If) and s_.body and isinstance(s_.body[-1], ast.Raise):
             pairs |= show_pairs(s_.test, gi)
+    # validation delegated to private helpers: their guards count, with the parameters bound to the
+    # arguments of the call
+    for c_ in ast.walk(init.node):
+        if isinstance(c_, ast.Call) and isinstance(c_.func, ast.Attribute) and norm(c_.func.value) in ("self", "cls", "OneDGrid") \
+                and c_.func.attr.startswith("_") and not c_.func.attr.startswith("__"):
+            h = repo.resolve_method("OneDGrid", c_.func.attr)
+            if h is None:
+                continue
+            hg = e5.VG(repo, "OneDGrid", h.node, inline=False)
+            hp = [p_ for p_ in h.params if p_ not in ("self", "cls")]
+            for p_, a_ in zip(hp, c_.args):
+                hg.env[p_] = gi.ev(a_)
+            for k_ in c_.keywords:
+                if k_.arg:
+                    hg.env[k_.arg] = gi.ev(k_.value)
+            for s_ in ast.walk(h.node):
+                if isinstance(s_, ast.Assign):
+                    try:
+                        hg.stmt(s_)
+                    except Exception:  # noqa: BLE001
+                        pass
+            for s_ in ast.walk(h.node):
+                if isinstance(s_, ast.If) and s_.body and isinstance(s_.body[-1], ast.Raise):
+                    pairs |= show_pairs(s_.test, hg)
     low = any(("min" in a and "domain[0]" in b) for a, b in pairs)     # min(points) < domain[0] (- tol)
     high = any(("domain[1]" in a and "max" in b) for a, b in pairs)    # domain[1] (+ tol) < max(points)
     for side, okk in (("lower", low), ("upper", high)):
